@@ -338,6 +338,40 @@ def run(ctx):
                        f"with a checkpoint in the layout build_checkpoint_state writes, the restored {nm} is {T.show(val_)[:160] if val_ else 'not set'}, not {where}: "
                        "the resumed run continues from a different state", disc=f"{nm}|exact")
 
+    # ---- the restored history is handed to the run as it was checkpointed: the restore calls no method on it that changes it (a trim, a reset of a
+    #      series, a re-sort) -- the run assumes a restored history ends with the checkpointed population and the entries of the completed iterations
+    def _mutates(fn):
+        for n_ in ast.walk(fn.node):
+            if isinstance(n_, ast.Delete):
+                return True
+            if isinstance(n_, ast.Attribute) and isinstance(n_.ctx, (ast.Store, ast.Del)):
+                return True
+            if isinstance(n_, ast.Subscript) and isinstance(n_.ctx, (ast.Store, ast.Del)):
+                return True
+            if isinstance(n_, ast.Call) and isinstance(n_.func, ast.Attribute) and n_.func.attr in ("append", "extend", "insert", "pop", "clear", "remove", "sort", "reverse"):
+                return True
+            if isinstance(n_, ast.Call) and isinstance(n_.func, ast.Name) and n_.func.id in ("setattr", "delattr"):
+                return True
+        return False
+    hist_classes = [c_ for c_ in repo.modules["aspire.history"].classes.values()]
+    hval = evr.heap.get((SELF, "history"))
+    bad_calls = []
+    for e_ in evr.events:
+        if not e_.callee.startswith("method:") or not e_.args:
+            continue
+        recv_ = e_.args[0]
+        if recv_ != hval and recv_ != self_attr("history"):
+            continue
+        nm_ = e_.callee[7:]
+        impl = [c_.resolve(nm_) for c_ in hist_classes if c_.resolve(nm_) is not None]
+        if any(_mutates(f_) for f_ in impl):
+            bad_calls.append((e_, nm_))
+    ctx.decide(not bad_calls, "C11.restore", rfc.ident, loc_of(rfc, bad_calls[0][0].node if bad_calls else None),
+               "the restore calls no state-changing method on the restored history",
+               (f"restore_from_checkpoint calls history.{bad_calls[0][1]}(...) on the restored history, a method that deletes or rewrites recorded entries: the run continues from a record "
+                "that is not the checkpointed one (e.g. without the checkpointed population, which the loop does not record again), so every later entry is paired with the wrong population") if bad_calls else "",
+               disc="history|mutated")
+
     # ---- the sampler-specific extras are merged into every payload
     bcs0 = repo.cls("aspire.samplers.base:Sampler").resolve("build_checkpoint_state")
     evm = _Ev(repo, max_depth=1, no_inline={"aspire.samplers.base:Sampler._checkpoint_extra_state", "aspire.samplers.base:Sampler.config_dict"})
